@@ -115,9 +115,9 @@ def apply_impl(ub, op):
             return f"nat {ub.get_tag_refl_num(op[2])}"
         else:
             if k == "add":
-                hkl, pos, en, xyz = payload(op[2]); ub.add_orientation(hkl, xyz, pos, op[3]); return "ok"
+                hkl, pos, en, xyz = payload(op[2]); ub.add_orientation(hkl, xyz, None if op[2] % 4 == 0 else pos, op[3]); return "ok"   # position is optional: None = all zeros
             if k == "edit":
-                hkl, pos, en, xyz = payload(op[3]); ub.edit_orientation(py(op[2]), hkl, xyz, pos, op[4]); return "ok"
+                hkl, pos, en, xyz = payload(op[3]); ub.edit_orientation(py(op[2]), hkl, xyz, None if op[3] % 4 == 0 else pos, op[4]); return "ok"
             if k == "get":
                 r = ub.get_orientation(py(op[2])); return f"rec {int(r.h)}:{'~' if r.tag is None else r.tag}"
             if k == "del":
@@ -174,6 +174,7 @@ def correspondence(ctx):
 def oracle(ctx, widen=1):
     """plain Python lists as the specification; full records (hkl/position/energy/xyz/tag) compared"""
     from diffcalc.ub.calc import UBCalculation
+    from diffcalc.hkl.geometry import Position
     n = ctx.scale(300, 20000) * widen
     maxlen = ctx.scale(30, 80)
     steps = 0
@@ -186,6 +187,8 @@ def oracle(ctx, widen=1):
 
     def rec(which, i, tag):
         hkl, pos, en, xyz = payload(i)
+        if which == "orient" and i % 4 == 0:
+            pos = Position()            # the orientation wrappers take the position as optional; an omitted position is the all-zero one
         return (*hkl, pos.astuple, en, tag) if which == "refl" else (*hkl, *xyz, pos.astuple, tag)
 
     for hi in range(n):
